@@ -90,6 +90,7 @@ def make_score(name, nc, cats):
       s = jnp.where(jnp.sum((xr - NEEDLE_P[:nc]) ** 2, axis=-1) < 1e-8, 10.0, s)
     if name in ('categorical', 'interior') and len(cats):
       s = s + 0.5 * (c[..., 0] == (cats[0] - 1))
+    s = jnp.broadcast_to(s, x.shape[:-1])      # (layouts without continuous features give scalars above)
     if x.ndim == 3:      # parallel acquisition: one value per set of n_parallel points
       s = jnp.sum(s, axis=-1)
     return s
@@ -153,10 +154,12 @@ def shard(task):
     try:
       conv, res, prior_trials = run_one(cfg, cfg.get('fori', True))
     except Exception as e:  # pylint: disable=broad-except
+      # every configuration is valid by construction: an optimiser that raises has not returned candidates
       k = '%s:%s' % (cfg['strategy'], type(e).__name__)
       refused[k] = refused.get(k, 0) + 1
       if len(refused) < 4:
         refused[k + ':msg'] = str(e)[:160]
+      V('raises:' + type(e).__name__, cfg, 'the optimiser raises %r' % (e,))
       continue
     nontriv += 1
     found = []
@@ -199,6 +202,50 @@ def shard(task):
     for clause, text in found:
       V(clause, cfg, text)
   return {'n': n, 'nontrivial': nontriv, 'refused': refused, 'violations': list(vios.values()), 'skipped': skipped}
+
+
+def churn_shard(task):
+  """Converters come and go in a long-lived process. An optimiser is built for a converter of space A, everything about A is
+  dropped, and a converter of another space B is created until it happens to land on A's old address; the optimiser built for
+  it must still be one for B (anything remembered per object identity instead of per object shows here)."""
+  import jax
+  jax.config.update('jax_enable_x64', True)
+  from vizier.pyvizier import converters
+  from vizier._src.algorithms.optimizers import eagle_strategy as es, random_vectorized_optimizer as rvo, vectorized_base as vb
+  vios, n, reused = {}, 0, 0
+
+  def mk(nc, cats):
+    return converters.TrialToModelInputConverter.from_problem(_problem(nc, cats))
+
+  def opt(conv, strat):
+    sf = es.VectorizedEagleStrategyFactory() if strat == 'eagle' else rvo.RandomVectorizedStrategy
+    return vb.VectorizedOptimizerFactory(strategy_factory=sf, max_evaluations=10, suggestion_batch_size=5)(conv)
+  for strat in ('eagle', 'random'):
+    for la, lb in (((1, (5,)), (1, (3,))), ((2, (4, 2)), (2, (2, 2))), ((1, (3,)), (2, (3,)))):
+      for i in range(task['tries']):
+        a = mk(*la)
+        o = opt(a, strat)
+        ida = id(a)
+        del a, o
+        b = mk(*lb)
+        if id(b) != ida:
+          continue
+        reused += 1
+        n += 1
+        cfg = {'strategy': strat, 'first_space': list(la), 'then_space': list(lb)}
+        try:
+          res = opt(b, strat)(make_score('categorical', lb[0], lb[1]), count=3, seed=jax.random.PRNGKey(1))
+          C = np.asarray(res.features.categorical)
+          X = np.asarray(res.features.continuous)
+          bad = [j for j, sz in enumerate(lb[1]) if not ((C[..., j] >= 0) & (C[..., j] < sz)).all()]
+          if bad or X.shape[-1] != lb[0] or C.shape[-1] != len(lb[1]):
+            sig = 'C19|stale-dimensions-after-converter-churn|%s' % strat
+            vios.setdefault(sig, {'sig': sig, 'desc': '%s: optimiser for layout %s built after one for %s had come and gone returns categorical values %s / shapes %s %s' % (cfg, lb, la, np.unique(C).tolist(), X.shape, C.shape), 'case': None})
+        except Exception as e:  # pylint: disable=broad-except
+          sig = 'C19|raises-after-converter-churn|%s' % strat
+          vios.setdefault(sig, {'sig': sig, 'desc': '%s: %r' % (cfg, e), 'case': None})
+        break
+  return {'n': n, 'reused': reused, 'violations': list(vios.values())}
 
 
 def configs(quick, seed):
@@ -263,7 +310,11 @@ def run(ctx):
     for k, v in r['refused'].items():
       refused[k] = v if isinstance(v, str) else refused.get(k, 0) + v
     ctx.extend(r['violations'])
-  return {'evaluations': tot, 'distinct_nontrivial': nontriv,
+  churn = list(ctx.pmap('churn_shard', [{'tries': 300}]))[0]
+  ctx.extend(churn['violations'])
+  tot += churn['n']
+  nontriv += churn['n']
+  return {'evaluations': tot, 'distinct_nontrivial': nontriv, 'converter_churn_scenarios_with_address_reuse': churn['reused'],
           'rule': 'one evaluation = one optimiser configuration (layout, padding, strategy, count, batch, budget, priors, n_parallel, score function, seed) run twice with the same seed; distinct by construction; non-trivial = the optimiser returned a result (refusals are tallied)',
           'samples': [{k: (list(v) if isinstance(v, tuple) else v) for k, v in cfgs[0].items()}, {k: (list(v) if isinstance(v, tuple) else v) for k, v in cfgs[-1].items()}],
           'refused': refused, 'untraced_crosschecks': len(extra), 'configurations_skipped_for_budget': skipped,
